@@ -38,6 +38,7 @@ var importMap = map[string][2]string{ // original path -> shim package, default 
 	"time":        {"vtime", "time"},
 	"context":     {"vctx", "context"},
 	"crypto/rand": {"vrand", "rand"},
+	"golang.org/x/sync/singleflight": {"vsingleflight", "singleflight"},
 }
 
 // constOverride shrinks lock-striping tables in the verification build only (they dominate the
